@@ -116,6 +116,7 @@ func configCase(model, memSpec, asm string, ioMask uint8, io map[uint8]string, f
 		return hex.EncodeToString([]byte(s))
 	}
 	req := fmt.Sprintf("config %s %s %s %d %s %d %d", hx(model), hx(memSpec), hx(asm), ioMask, iostr, flags, base)
+	pend("%s", req)
 	loaded, err := emuconfig.NewConfigFromFile(file)
 	if err != nil {
 		return req + " => reject"
